@@ -38,6 +38,8 @@ def _diag(ctx, s):
 def _theta(ctx, use):
     if not use:
         return 0
+    if not ctx.sym:
+        return ctx.scalar('theta', lo=0.001, hi=0.2)     # replay / random runs: a small cut, so that truncation paths differ
     return ctx.scalar('theta', lo=(0,), hi=(1,))
 
 
@@ -214,17 +216,49 @@ def ortho_truncated(ctx, shape, which, use_theta, max_rank, cplx):
         ctx.check(tag + ': no inner rank exceeds max_rank', all(t.ranks[i] <= bound[i] for i in range(1, d)),
                   detail='%s vs bound %s' % (t.ranks, bound))
         ctx.check(tag + ': ranks never grow', all(a <= b for a, b in zip(t.ranks, shape['ranks'])))
-        if not ctx.sym:
-            return t.ranks
-        from symtt import state
-        calls = [c for c in state.S.stub_log if c.kind == 'svd']
         steps = []
         if which in ('left', 'both'):
             steps += [('L', i) for i in range(0, d - 1)]
         if which in ('right', 'both'):
             steps += [('R', i) for i in range(d - 1, 0, -1)]
+        rule = tag.split(' path ')[0] + ': ranks follow the documented truncation rule (count of s_j/s_0 > theta, capped by max_rank of that bond)'
+        if not ctx.sym:
+            # reference sweep with NumPy on the same input
+            ref = [np.array(c, dtype=complex) for c in cores]
+            th = float(theta) if use_theta else 0.0
+            for side, i in steps:
+                c = ref[i]
+                M = c.reshape(-1, c.shape[3]) if side == 'L' else c.reshape(c.shape[0], -1)
+                u, s_, v = np.linalg.svd(M, full_matrices=False)
+                r = int(np.sum(s_ / s_[0] > th)) if use_theta else len(s_)
+                cap = (None if which == 'both' else bound[i + 1]) if side == 'L' else bound[i]
+                if cap is not None and cap != np.inf:
+                    r = min(r, cap)
+                u, s_, v = u[:, :r], s_[:r], v[:r, :]
+                if side == 'L':
+                    ref[i] = u.reshape(c.shape[0], c.shape[1], c.shape[2], r)
+                    ref[i + 1] = np.tensordot(np.diag(s_) @ v, ref[i + 1], axes=(1, 0))
+                else:
+                    ref[i] = v.reshape(r, c.shape[1], c.shape[2], c.shape[3])
+                    p_ = ref[i - 1]
+                    ref[i - 1] = (p_.reshape(-1, p_.shape[3]) @ u @ np.diag(s_)).reshape(p_.shape[0], p_.shape[1], p_.shape[2], r)
+            exp_ranks = [1] + [ref[i].shape[3] for i in range(d - 1)] + [1]
+            ok = ctx.check(rule, t.ranks == exp_ranks, detail='%s vs reference %s' % (t.ranks, exp_ranks))
+            if ok:
+                ctx.eq(tag.split(' path ')[0] + ': truncated tensor == reference TT-rounding', t.full(), D.tt_full(ctx, ref), tol=1e-7)
+            return t.ranks
+        from symtt import state
+        calls = [c for c in state.S.stub_log if c.kind == 'svd']
         ctx.check(tag + ': one SVD per bond and sweep', len(calls) == len(steps))
         if len(calls) != len(steps):
+            return t.ranks
+        exp_ranks = list(shape['ranks'])
+        for (side, i), call in zip(steps, calls):
+            if side == 'L':
+                exp_ranks[i + 1] = _kept(ctx, call, theta, use_theta, None if which == 'both' else bound[i + 1])
+            else:
+                exp_ranks[i] = _kept(ctx, call, theta, use_theta, bound[i])
+        if not ctx.check(rule, t.ranks == exp_ranks, detail='%s vs documented rule %s' % (t.ranks, exp_ranks)):
             return t.ranks
         cur = list(cores)
         for (side, i), call in zip(steps, calls):
